@@ -1,15 +1,21 @@
 #!/bin/bash
-# tools/run_all_mutants.sh [ids...]: run every seeded change (seeded/<id>/patch.diff) against the check of the property it
-# breaks (scratch copy of /repo through VERIF_REPO) and print one line per change: DETECTED (with or without a failing input) / MISSED.
+# tools/run_all_mutants.sh [ids...]: run every seeded change against the check of the property it breaks (scratch copy of /repo
+# through VERIF_REPO) and print one line per change: DETECTED (with or without a failing input) / MISSED / PATCH-DOES-NOT-APPLY.
+# Of the patch files of a change (patch.diff and its rebased forms patch.after_fix*.diff, patch_rebased.diff) the first that
+# applies to /repo's HEAD is used.  Changes of DIFFERENT properties may run in parallel (tools/try_mutant.sh takes a build slot).
 HERE=$(cd "$(dirname "$0")/.." && pwd); cd "$HERE"
 ids=${@:-$(ls seeded)}
 for id in $ids; do
-  [ -f seeded/$id/patch.diff ] || continue
+  [ -d seeded/$id ] || continue
   prop=$(python3 -c "import json;print(json.load(open('seeded/$id/meta.json'))['breaks_property'])" 2>/dev/null || echo ${id%%_*})
-  out=$(tools/try_mutant.sh $prop seeded/$id/patch.diff 2>&1)
+  patch=
+  for f in $(ls -r seeded/$id/patch.after_fix*.diff 2>/dev/null) seeded/$id/patch_rebased.diff seeded/$id/patch.diff; do
+    [ -f $f ] && git -C /repo apply --check $HERE/$f 2>/dev/null && { patch=$f; break; }
+  done
+  if [ -z "$patch" ]; then echo "$id $prop PATCH-DOES-NOT-APPLY"; continue; fi
+  out=$(tools/try_mutant.sh $prop $patch 2>&1)
   nv=$(echo "$out" | grep -c "^VIOLATION")
   ni=$(echo "$out" | grep "^VIOLATION" | grep -vc "no-failing-input-found")
-  if echo "$out" | grep -q "patch does not apply"; then echo "$id $prop PATCH-DOES-NOT-APPLY";
-  elif [ "$nv" -gt 0 ]; then echo "$id $prop DETECTED violations>=$nv with_failing_input=$ni";
+  if [ "$nv" -gt 0 ]; then echo "$id $prop DETECTED violations>=$nv with_failing_input=$ni ($(basename $patch))";
   else echo "$id $prop MISSED  $(echo "$out" | grep "^\[$prop\]" | cut -c1-120)"; fi
 done
